@@ -336,6 +336,8 @@ def ty(e):
         bd, dd = t.inputs[bint_var], t.inputs[diag_var]
         if not isinstance(bd[0], int) or bd[1] != () or len({reals_var, bint_var, diag_var}) != 3:
             raise IllTyped("independent")
+        if t.out[0] != "real":
+            raise IllTyped("independent of an integer-valued term (the sum would leave the declared range)")
         inputs = {k: v for k, v in t.inputs.items() if k not in (bint_var, diag_var)}
         if reals_var in inputs:
             raise IllTyped("reals_var clashes")
